@@ -290,6 +290,8 @@ fn sample_and_expire_batch(store: &Arc<FeoxStore>, config: &TtlConfig) -> (u64, 
             };
 
             if retired {
+                #[cfg(feature = "verif")]
+                crate::verif::point("sweep_expired_removed", 0, 0);
                 store.remove_cached(&key, &record);
                 store.note_expired_record(record_size);
                 expired += 1;
